@@ -31,6 +31,7 @@ DIMS = ["file", "section", "type", "priority", "#", "@", "%", "+"]
 ORDER_KEYS = ["alpha", "create", "modify", "priority", "type", "none"]
 SELECTS = [["note"], ["file"], ["#"], ["@"], ["%"], ["+"], ["prop"], ["propvals", "k"], ["propvals", "n"], ["links"]]
 WHERES = {
+    "K4H": [None, [[["kind", "-o"]], [["tag", "+", "j1", False]]], [[["tag", "+", "nosuch", False]]]],
     "K1": [None, [[["kind", "o<>-"], ["tag", "@", "c2", True]]], [[["tag", "+", "nosuch", False]]]],
     "K4": [None, [[["kind", "-o"]], [["tag", "+", "j1", False]]], [[["tag", "+", "nosuch", False]]]],
 }
@@ -41,10 +42,29 @@ LONG_GROUPS = [
 ]
 
 
+def _k4_history_edits(zd):
+    """What happened to the K4 directory after it was indexed: a page that was the only holder of a
+    link, a project and a property key is deleted, and the last holder of another link loses it."""
+    (zd / "gone.zo").unlink()
+    p = zd / "stays.zo"
+    p.write_text(p.read_text().replace(" [[lonely]] @lonelyctx lonelykey::v", ""))
+
+
+K4H_EXTRA = {
+    "gone.zo": "# Gone page +goneproj\n\n- 240901#G1 only holder [[vanishing]] %goneperson gonekey::gv\n",
+    "stays.zo": "# Stays\n\n- 240902#S1 loses its link [[lonely]] @lonelyctx lonelykey::v\n- 240902#S2 keeps [[kept]] +keptproj\n",
+}
+
+
 def _index(name) -> IX.Index:
     ix = _IX.get(name)
     if ix is None:
-        ix = _IX[name] = IX.Index(C.K1 if name == "K1" else C.K4, DAY, tag="c09")
+        if name == "K4H":
+            # K4 plus two pages, after a real delete / edit / reindex history (tag and link tables may
+            # still hold rows no note refers to: a selection lists what the NOTES carry)
+            ix = _IX[name] = IX.Index.after_history({**C.K4, **K4H_EXTRA}, DAY, _k4_history_edits, tag="c09h")
+        else:
+            ix = _IX[name] = IX.Index(C.K1 if name == "K1" else C.K4, DAY, tag="c09")
     return ix
 
 
@@ -302,6 +322,15 @@ def _cases(ctx):
                         cases.append([name, sel, wi, o, g])
                         if sel[0] != "note" or o is None or o == ["none"]:
                             cases.append([name, ["count", sel], wi, o, g])
+    # value selections on an index with a history (no filter / a filter, no grouping / by file)
+    for sel in SELECTS:
+        if sel[0] == "note":
+            continue
+        for wi in (0, 1):
+            for g in (None, ["file"]):
+                for o in orders_val:
+                    cases.append(["K4H", sel, wi, o, g])
+                    cases.append(["K4H", ["count", sel], wi, o, g])
     for w, o, g in DUP_QUERIES:
         cases.append(["DUP", w, o, g])
     for w, o, g in PATHS_QUERIES:
@@ -319,7 +348,7 @@ def _sample(case):
 def run(ctx: F.Ctx):
     H.freeze(DAY)
     cases = _cases(ctx)
-    for n in ("K1", "K4"):
+    for n in ("K1", "K4", "K4H"):
         _index(n)
     _small_index("DUP")
     _small_index("PATHS")
@@ -341,7 +370,7 @@ def run(ctx: F.Ctx):
             "create alpha} for value selections; 3 filters per index (no WHERE, a mid-selectivity "
             "filter, a filter selecting nothing); plus a three-page index in which a note line was copied to another page "
             "(two notes share a ZID, each page also holds an earlier ZID) under 12 note queries, where every matching note "
-            "must be listed exactly once under its own headers (notes told apart by their text); and a three-page index whose page paths contain '.zo' before the extension too (my.zone/a.zo, x.zoo.zo) under 3 queries grouped by file. Laws in the module docstring. Non-trivial = the "
+            "must be listed exactly once under its own headers (notes told apart by their text); the K4 index after a real history (a page that was the only holder of a link / project / person / key deleted, another last holder edited, plain reindex) under every value selection and its count; and a three-page index whose page paths contain '.zo' before the extension too (my.zone/a.zo, x.zoo.zo) under 3 queries grouped by file. Laws in the module docstring. Non-trivial = the "
             "filter selects something."
         ),
         "bounds": {"cases": len(cases), "frozen_day": DAY.isoformat()},
